@@ -22,28 +22,36 @@ type MetadataEndpoint struct {
 	DisableIssuerIdentifierVerification bool `mapstructure:"disable_issuer_identifier_verification"`
 }
 
-func (e *MetadataEndpoint) init() {
-	if e.Headers == nil {
-		e.Headers = make(map[string]string)
+// withDefaults returns a copy of the configured endpoint with the defaults applied.
+// The shared (prototype) endpoint is not modified, as it is used concurrently.
+func (e *MetadataEndpoint) withDefaults() endpoint.Endpoint {
+	headers := make(map[string]string, len(e.Headers)+1)
+	for k, v := range e.Headers {
+		headers[k] = v
 	}
 
-	if _, ok := e.Headers["Accept"]; !ok {
-		e.Headers["Accept"] = "application/json"
+	if _, ok := headers["Accept"]; !ok {
+		headers["Accept"] = "application/json"
 	}
 
-	if len(e.Method) == 0 {
-		e.Method = http.MethodGet
+	ep := e.Endpoint
+	ep.Headers = headers
+
+	if len(ep.Method) == 0 {
+		ep.Method = http.MethodGet
 	}
 
-	if e.HTTPCache == nil {
-		e.HTTPCache = &endpoint.HTTPCache{Enabled: true, DefaultTTL: 30 * time.Minute} //nolint:mnd
+	if ep.HTTPCache == nil {
+		ep.HTTPCache = &endpoint.HTTPCache{Enabled: true, DefaultTTL: 30 * time.Minute} //nolint:mnd
 	}
+
+	return ep
 }
 
 func (e *MetadataEndpoint) Get(ctx context.Context, args map[string]any) (ServerMetadata, error) {
-	e.init()
+	ep := e.withDefaults()
 
-	req, err := e.CreateRequest(ctx, nil, endpoint.RenderFunc(func(value string) (string, error) {
+	req, err := ep.CreateRequest(ctx, nil, endpoint.RenderFunc(func(value string) (string, error) {
 		tpl, err := template.New(value)
 		if err != nil {
 			return "", errorchain.NewWithMessage(heimdall.ErrInternal, "failed to create template").
@@ -57,7 +65,7 @@ func (e *MetadataEndpoint) Get(ctx context.Context, args map[string]any) (Server
 			"failed creating oauth2 server metadata request").CausedBy(err)
 	}
 
-	resp, err := e.CreateClient(req.URL.Hostname()).Do(req)
+	resp, err := ep.CreateClient(req.URL.Hostname()).Do(req)
 	if err != nil {
 		var clientErr *url.Error
 		if errors.As(err, &clientErr) && clientErr.Timeout() {
